@@ -826,6 +826,7 @@ package url
 //@   modifies s.url.query
 //@   ensures s.url != nil ==> wf(s.url)
 //@   ensures s.url != nil ==> ((old(s.url.query) != nil) ==> s.url.query != nil)   [C12]
+//@   ensures synced(s)   [C12 write-through]
 //@ func (*SearchParams).init
 //@   requires s != nil && s.url != nil && s.url.parser != nil
 //@   modifies s.params, s.params[..]
@@ -837,12 +838,14 @@ package url
 //@   requires spOK(s) && (s.url != nil ==> (wf(s.url) && s.url.searchParams == s))
 //@   modifies s.params, s.params[..], s.url.query
 //@   ensures spOK(s) && (s.url != nil ==> wf(s.url))   [C02]
+//@   ensures synced(s)   [C12 write-through]
 //@   ensures len(s.params) == old(len(s.params)) + 1 && s.params[len(s.params) - 1].Name == name && s.params[len(s.params) - 1].Value == value   [C11]
 //@   ensures forall k int :: 0 <= k && k < old(len(s.params)) ==> s.params[k] == old(s.params[k])   [C11]
 //@ func (*SearchParams).Delete
 //@   requires spOK(s) && (s.url != nil ==> (wf(s.url) && s.url.searchParams == s))
 //@   modifies s.params, s.url.query
 //@   ensures spOK(s) && (s.url != nil ==> wf(s.url))   [C02]
+//@   ensures synced(s)   [C12 write-through]
 //@   ensures forall k int :: 0 <= k && k < len(s.params) ==> s.params[k].Name != name   [C11]
 //@   ensures len(s.params) <= old(len(s.params))   [C11]
 //@   loop 1 modifies nothing
@@ -868,6 +871,7 @@ package url
 //@   requires spOK(s) && (s.url != nil ==> (wf(s.url) && s.url.searchParams == s))
 //@   modifies s.params, s.params[..], s.url.query, all(s.params).Value
 //@   ensures spOK(s) && (s.url != nil ==> wf(s.url))   [C02]
+//@   ensures synced(s)   [C12 write-through]
 //@   loop 1 modifies s.params[..], all(s.params).Value
 //@   loop 1 invariant s.params == pre(s.params)
 //@   loop 1 invariant arr(params) == arr(s.params) && off(params) == off(s.params) && cap(params) == cap(s.params) && 0 <= len(params) && len(params) <= $i
@@ -877,6 +881,7 @@ package url
 //@   requires spOK(s) && (s.url != nil ==> (wf(s.url) && s.url.searchParams == s))
 //@   modifies s.params[..], s.url.query
 //@   ensures spOK(s) && (s.url != nil ==> wf(s.url))   [C02]
+//@   ensures synced(s)   [C12 write-through]
 //@ func (*SearchParams).Sort$1
 //@   requires spOK(s) && 0 <= i && i < len(s.params) && 0 <= j && j < len(s.params)
 //@   ensures result == (s.params[i].Name < s.params[j].Name)   [C11]
@@ -884,6 +889,7 @@ package url
 //@   requires spOK(s) && (s.url != nil ==> (wf(s.url) && s.url.searchParams == s))
 //@   modifies s.params[..], s.url.query
 //@   ensures spOK(s) && (s.url != nil ==> wf(s.url))   [C02]
+//@   ensures synced(s)   [C12 write-through]
 //@ func (*SearchParams).SortAbsolute$1
 //@   requires spOK(s) && 0 <= i && i < len(s.params) && 0 <= j && j < len(s.params)
 //@   ensures result == (s.params[i].Name + s.params[i].Value < s.params[j].Name + s.params[j].Value)   [C11]
@@ -891,6 +897,7 @@ package url
 //@   requires spOK(s) && (s.url != nil ==> (wf(s.url) && s.url.searchParams == s)) && f != nil
 //@   modifies s.url.query, all(s.params).Name, all(s.params).Value
 //@   ensures spOK(s) && (s.url != nil ==> wf(s.url))   [C02]
+//@   ensures synced(s)   [C12 write-through]
 //@   loop 1 modifies all(s.params).Name, all(s.params).Value
 //@   loop 1 invariant spOK(s) && s.params == pre(s.params)
 
